@@ -170,3 +170,19 @@ def _sum_congruence(c):
 
 Lemma(['C01', 'C02', 'C03', 'C20'], 'sum_congruence', _sum_congruence,
       doc='sums of pointwise equal terms are equal (induction): justifies the congruence steps used in hint chains')
+
+
+def _cumsum_nonneg(c):
+    I, R = z3.IntSort(), z3.RealSort()
+    a = z3.Function('a', I, R)
+    m, k, q = z3.Ints('m k q')
+    S = lambda i: c.Sum(0, i, lambda j: a(j))
+    pos = z3.ForAll([q], z3.Implies(q >= 0, a(q) >= 0))
+    return [('nonneg.base', [pos], S(0) >= 0), ('nonneg.step', [pos, m >= 0, S(m) >= 0], z3.And(S(m + 1) >= 0, S(m + 1) >= S(m))),
+            ('dominates.base', [pos, k >= 0, z3.ForAll([q], z3.Implies(q >= 0, S(q) >= 0))], S(k + 1) >= a(k)),
+            ('dominates.step', [pos, k >= 0, m > k, S(m) >= a(k)], S(m + 1) >= a(k))]
+
+
+Lemma(['C09', 'C01'], 'cumsum_of_nonnegative', _cumsum_nonneg,
+      doc='partial sums of non-negative terms are non-negative, non-decreasing and dominate each term: the guarded '
+          'fact offered by the cumsum model')
